@@ -397,3 +397,33 @@ Example objects_stateless_notices_a_cache :
   stateful_fields [("signer.Signer", [("key", "[]byte"); ("m", "hash.Hash")])] = [("signer.Signer", "m")] /\
   writing_methods [("identity.jwtVerifier.Verify", ["v.cache[h.KeyID] = k"])] = ["identity.jwtVerifier.Verify"].
 Proof. vm_compute. split; reflexivity. Qed.
+
+(** ** Where the bytes of a result live
+
+    Cred/Own.v models [Signer.Sign] with its result in an array of its own
+    ([fresh = true]); that is what the ownership theorems of Cred/OwnProofs.v
+    need.  Decided on the origins the translator reads off the source: every
+    return of [Sign] (and of [hash]) hands out memory made inside the function,
+    never [append] to the parameter; [Check] returns nothing or a view of its
+    argument (the caller's own memory). *)
+Fixpoint origins_of (name : string) (l : list (string * list string)) : list string :=
+  match l with
+  | [] => []
+  | (n, o) :: r => if String.eqb n name then o else origins_of name r
+  end.
+
+Definition all_fresh (o : list string) : bool :=
+  match o with [] => false | _ => forallb (String.eqb "fresh") o end.
+
+Definition sign_result_fresh (l : list (string * list string)) : bool :=
+  all_fresh (origins_of "signer.Signer.Sign" l) && all_fresh (origins_of "signer.Signer.hash" l)
+  && forallb (fun o => String.eqb o "nil" || String.eqb o "view-of-param bs") (origins_of "signer.Signer.Check" l)
+  && negb (match origins_of "signer.Signer.Check" l with [] => true | _ => false end).
+
+Lemma gen_sign_result_fresh : sign_result_fresh gen_result_origins = true.
+Proof. vm_compute. reflexivity. Qed.
+
+Example sign_result_fresh_notices_append :
+  sign_result_fresh [("signer.Signer.Sign", ["append-to-param dat"]); ("signer.Signer.hash", ["fresh"]);
+                     ("signer.Signer.Check", ["nil"; "view-of-param bs"])] = false.
+Proof. vm_compute. reflexivity. Qed.
